@@ -18,6 +18,7 @@ def hyps (req : Sexp) : Option Sexp :=
   match req with
   | .list [.atom "rt", env, rt, val, .atom _] => some (Driver.rtHyps env rt val)
   | .list [.atom "prog", _, prog, _, .list vals] => some (Driver.progSpec prog vals)
+  | .list [.atom "strict", _, prog, _, .list vals] => some (Driver.strictSpec prog vals)
   | .list [.atom "rewrite", _, p, _, _, q, _, .list script] => some (Driver.rewriteHyps p q script)
   | .list [.atom "describe", _, prog, _, _] => some (Driver.describeHyps prog)
   | .list [.atom "sub", _, .list decls, a, b, _] => some (Driver.subSpec decls a b)
@@ -33,6 +34,7 @@ def handle (req : Sexp) : Sexp :=
   | .list (.atom "sha-toks" :: toks) => Driver.shaToks toks
   | .list [.atom "rt", env, rt, val, .atom strict] => Driver.rtOp env rt val (strict == "true")
   | .list [.atom "prog", _, prog, _, .list vals] => Driver.progOp prog vals
+  | .list [.atom "strict", _, prog, _, .list vals] => Driver.strictOp prog vals
   | .list [.atom "rewrite", _, p, _, .list vals, q, _, _] => Driver.rewriteOp p q vals
   | .list [.atom "describe", _, prog, _, _] => Driver.describeOp prog
   | .list [.atom "total", _, prog, _, _] => Driver.totalOp prog
